@@ -25,6 +25,8 @@ type Clause struct {
 }
 
 type LoopSpec struct {
+	Split     *Clause // case split on an expression over lo..hi (complete: split-cover obligation)
+	SplitLo, SplitHi int
 	Ordinal   int
 	Invs      []*Clause
 	Decreases *Clause
@@ -59,6 +61,8 @@ type Contract struct {
 	Ghosts   []string // universally quantified ghost parameters ("name sort")
 	FreshResult bool
 	Uses    []*Clause // lemma instantiations assumed at entry (each must be a proved lemma/axiom instance)
+	FnSplit *Clause // function-level case split (over the entry state)
+	FnSplitLo, FnSplitHi int
 	Stamps  []*Stamp  // ghost stamps recorded at every send on a channel
 	Exports []*Clause // int-mode postconditions of a bv-mode function (justified by bridge obligations)
 }
@@ -407,7 +411,26 @@ func (lib *SpecLib) loadFile(path, pkgPath string) error {
 				return fmt.Errorf("%s: model outside type", it.where)
 			}
 			curType.Models[m.Name] = m
-		case "requires", "ensures", "assert", "split", "use", "exports":
+		case "split":
+			re := regexp.MustCompile(`^(.+)\s+in\s+(\d+)\.\.(\d+)$`)
+			m := re.FindStringSubmatch(it.rest)
+			if m == nil || cur == nil {
+				return fmt.Errorf("%s: bad split (want: split EXPR in LO..HI)", it.where)
+			}
+			c, err := mkClause(m[1], it.where)
+			if err != nil {
+				return err
+			}
+			if curLoop == nil {
+				cur.FnSplit = c
+				cur.FnSplitLo, _ = strconv.Atoi(m[2])
+				cur.FnSplitHi, _ = strconv.Atoi(m[3])
+			} else {
+				curLoop.Split = c
+				curLoop.SplitLo, _ = strconv.Atoi(m[2])
+				curLoop.SplitHi, _ = strconv.Atoi(m[3])
+			}
+		case "requires", "ensures", "assert", "use", "exports":
 			if cur == nil {
 				return fmt.Errorf("%s: %s outside func", it.where, it.kw)
 			}
